@@ -1,6 +1,14 @@
 /* C09: views - operations on a window read and write only the viewed block (differential against standalone copies). */
 #include "ops.h"
+#ifdef VX_C10_VIEWS
+/* the same enumeration compiled as a C10 run: results and the zero padding of every OWNED matrix must not depend on whether
+   the other operands are standalone matrices or views into dirty parents (the C09-specific clauses are not reported here) */
+const char *prop_id = "C10";
+#define C09_ONLY(x) ((void)0)
+#else
 const char *prop_id = "C09";
+#define C09_ONLY(x) x
+#endif
 
 typedef struct { int rowoff, wordoff, trailw, trailr, nest; } plc;
 static plc PL[80]; static int nPL;
@@ -47,9 +55,9 @@ static void run_case(const vop *o, int si, int mask, int pi, int fill, int data,
       snprintf(cl, sizeof cl, o->role[k] == 'i' ? "readonly-operand-%d" : "view-content-%d", k);
       vx_fail(sig, cl, "operand %d (%s) differs from the same call on standalone copies", k, (mask >> k) & 1 ? "window" : "owned");
     }
-    if ((mask >> k) & 1) { if (vw_outside_changed(&w[k], msg, sizeof msg)) { snprintf(cl, sizeof cl, "parent-outside-%d", k); vx_fail(sig, cl, "operand %d: %s", k, msg); } }
+    if ((mask >> k) & 1) { C09_ONLY(if (vw_outside_changed(&w[k], msg, sizeof msg)) { snprintf(cl, sizeof cl, "parent-outside-%d", k); vx_fail(sig, cl, "operand %d: %s", k, msg); }); }
     else if (mzd_padding_dirty(m[k]) >= 0) { snprintf(cl, sizeof cl, "padding-%d", k); vx_fail(sig, cl, "owned operand %d has non-zero bits beyond its last column", k); }
-    if (o->role[k] == 'i' && !vw_all_unchanged(&w[k], msg, sizeof msg)) { snprintf(cl, sizeof cl, "readonly-operand-%d", k); vx_fail(sig, cl, "read-only operand %d: %s", k, msg); }
+    C09_ONLY(if (o->role[k] == 'i' && !vw_all_unchanged(&w[k], msg, sizeof msg)) { snprintf(cl, sizeof cl, "readonly-operand-%d", k); vx_fail(sig, cl, "read-only operand %d: %s", k, msg); });
   }
   if (res) mzd_free(res);
   uint64_t dg = 0;
